@@ -191,6 +191,7 @@ package wal
 //@ -- contract of the post-commit step returned by createNextSegment for state s
 //@ -- and new tail seg: create the file, install writer and reader in s
 //@ func postCommit(s, seg)
+//@   requires[C13.file-created-after-commit] traced("call:types.MetaStore.CommitState")
 //@   requires s != nil && PendingTail(s) && smmax(s.segments) == seg.BaseIndex && SameSeg(seg, smget(s.segments, seg.BaseIndex))
 //@   assigns s.tail, s.segments, g_open
 //@   ensures[C03.post-wf] result == nil ==> WFS(s) && s.tail.last == 0 && s.tail.base == seg.BaseIndex && !s.tail.sealed
@@ -198,7 +199,7 @@ package wal
 //@   ensures[C04.post-keeps-segments] result == nil ==> (forall k uint64 :: {smhas(s.segments, k)} smhas(s.segments, k) ==> SameInfo(smget(s.segments, k), old(smget(s.segments, k))))
 
 //@ func (*WAL).mutateStateLocked
-//@   props C03 C04 C10
+//@   props C03 C04 C10 C13
 //@   requires w.metaDB != nil && tx != nil && av(w.s) != nil && WFS(av(w.s))
 //@   assigns w.s, g_commits, g_open, av(w.s).refCount, av(w.s).finalizer
 //@   ensures[C03.published-state-wf] av(w.s) != nil && WFS(av(w.s))
@@ -206,6 +207,7 @@ package wal
 //@   site atomic-store(s) requires[C10.published-after-commit] g_commits == old(g_commits) + 1
 //@   site atomic-store(s) requires[C03.published-wf] WFS(stored)
 //@   site atomic-store(finalizer) requires[C04.finalizer-after-commit] g_commits == old(g_commits) + 1
+//@   site atomic-store(finalizer) requires[C10.failed-commit-keeps-files] g_commits == old(g_commits) + 1
 //@   ensures[C04.one-commit-per-txn] result == nil ==> g_commits == old(g_commits) + 1
 //@   ensures[C10.atomic] result != nil ==> g_commits == old(g_commits)
 //@   ensures[C10.published-only-on-success] result != nil ==> av(w.s) == old(av(w.s))
